@@ -572,6 +572,7 @@ class _Run:
                 henv.update(kw)
                 sub = _Run(self.i, self.choices)
                 sub.pos, sub.decisions = self.pos, self.decisions
+                sub.aligned, sub.keep = self.aligned, self.keep  # facts established about tensor objects hold across the call
                 try:
                     r = sub.exec_fn(hfn, henv)
                 finally:
